@@ -2085,7 +2085,35 @@ def rule_openloop_rdy_order(repo):
     return rule_openloop_vertices(repo)
 
 
-RULES = [rule_rdy, rule_count, rule_step, rule_siblings, rule_cl, rule_history, rule_copy, rule_connect, rule_buffer,
+def rule_fl_blocks_stay_ordered(repo):
+    """a CL queue's same-cycle behaviour (pipe: dequeue before enqueue; bypass: enqueue before dequeue) between a producer and a
+    consumer that both use blocking FL methods survives the greenlet wrapping only if BOTH ends of every constraint are
+    renamed to the wrapped blocks -- decided by C02 (R-C02-greenlet)"""
+    from rules.c02 import rule_greenlet
+    return rule_greenlet(repo)
+
+
+def rule_method_equivalence_keys(repo):
+    """an FL producer reaches a CL queue through the adapter connect() inserts; the adapter's M(recv) == M(send) only carries the
+    queue's M(enq) / M(deq) ordering to the producer if both sides of the equivalence are normalised to the underlying method
+    by the same case split (blocking and non-blocking interfaces alike) -- decided by C02 (R-C02-constraint-entry)"""
+    from rules.c02 import rule_constraint_entry
+    return rule_constraint_entry(repo)
+
+
+def rule_every_cycle_group_runs(repo):
+    """the RTL queues driven by one control block form block-level cycles (one per lane / bank): every group's own blocks are
+    re-evaluated by its own generated loop, under every scheduler and for groups large enough to be partitioned -- decided by
+    C11 (R-C11-cover, R-C11-once, R-C11-metaname)"""
+    import rules.c11 as c11
+    out = []
+    for rl in (c11.rule_cover, c11.rule_once, c11.rule_metaname):
+        res = rl(repo)
+        out.extend(res if isinstance(res, list) else [res])
+    return out
+
+
+RULES = [rule_fl_blocks_stay_ordered, rule_method_equivalence_keys, rule_every_cycle_group_runs, rule_rdy, rule_count, rule_step, rule_siblings, rule_cl, rule_history, rule_copy, rule_connect, rule_buffer,
          rule_openloop_rdy_order]
 THOROUGH_RULES = [rule_wide]
 
